@@ -497,7 +497,10 @@ def one(case, acc, rng):
 
 
 def run_shard(spec, acc):
-    resource.setrlimit(resource.RLIMIT_CORE, (0, 0))
+    # no core files from the children that die by a signal - except where a case asks for them (the puppet's D command
+    # raises the soft limit again and writes the file into its own temporary directory)
+    hard = resource.getrlimit(resource.RLIMIT_CORE)[1]
+    resource.setrlimit(resource.RLIMIT_CORE, (0, hard))
     signal.signal(signal.SIGHUP, signal.SIG_DFL)
     if 'replay' in spec:
         import random
